@@ -163,6 +163,16 @@ CLAIMED['C15'] = dict(
          'Two histogram rules lack the line→sample-list composition (stated as missing).',
     ref='DESIGN.md 5 C15')
 
+CLAIMED['C12'] = dict(
+    text='A composition theorem over the C01 (in-process metrics), C09 (file-backed value closure) and C08 (collector) models: backends_equivalent_partial — for every single-process history over '
+         'counters, gauges (all ten modes), summaries and histograms, the normalised multiprocess collection and the normalised in-process collection contain exactly the same (name, labels, value) '
+         'pairs, normalise removing only the intended differences (_created, exemplars, pid label in all/liveall, order, never-set mostrecent gauges); built from one_interface, cells_agree_partial, '
+         'collector_on_one_process, le_labels_agree. Every C01-style history is run against BOTH real back-ends (MutexValue registry vs MultiProcessValue + MultiProcessCollector) and compared by an '
+         'oracle written from the property text; the driver returns both models\' maps.',
+    note='Known findings (listed, each excluded by an explicit hypothesis and shown by a kernel-checked counter-example): C12:negative-first-bound-sum (F14), C12:remove-clear-not-propagated (F28), '
+         'C12:signed-zero-bounds (F29). BoundsOK (rendered le text is a fixpoint of parse∘render) is validated per generated bound. Inherits the preconditions of C08/C09.',
+    ref='DESIGN.md 5 C12')
+
 PENDING_REASON = 'not claimed yet: model/theorems for this property are not built at this commit (work order in DESIGN.md 8); no other technique is substituted'
 
 
